@@ -123,7 +123,25 @@ func genC07(seed uint64, idx int, tier string) *Scenario {
 		}
 		sc.Actors = append(sc.Actors, a)
 	}
-	if faulty && !badStart {
+	if faulty && !badStart && r.Chance(0.25) {
+		// directed: a line is flushed by the timer, the active file disappears, and a burst large enough to be flushed
+		// by size follows at once (within the same simulated second as the last write)
+		sc.Actors = nil
+		a := Actor{Kind: "sender", Name: "s0"}
+		serial++
+		ej, _ := json.Marshal(c07Emit{Serial: serial, Pad: r.Range(0, 200)})
+		a.Ops = append(a.Ops, Op{K: "emit", Exp: ej}, Op{K: "sleep", Ms: int64(r.Range(1001, 1800))})
+		kd := r.Pick([]string{"fsremove", "fsrename"})
+		a.Ops = append(a.Ops, Op{K: kd})
+		for k := r.Range(150, 700); k > 0; k-- {
+			serial++
+			ej, _ := json.Marshal(c07Emit{Serial: serial, Pad: r.Range(900, 4200)})
+			a.Ops = append(a.Ops, Op{K: "emit", Exp: ej})
+		}
+		sc.Actors = append(sc.Actors, a)
+		sc.Faults = []string{kd}
+		class = "external-" + kd + "+burst-at-once"
+	} else if faulty && !badStart {
 		f := Actor{Kind: "fs", Name: "fs"}
 		kinds := []string{"fsremove", "fsrename", "fsrmdir"}
 		nf := r.Range(1, 3)
@@ -156,17 +174,19 @@ func genC07(seed uint64, idx int, tier string) *Scenario {
 }
 
 type c07State struct {
-	dir       string
-	logdir    string
-	sent      map[string]int64 // serial key -> simulated ms of the Send call
-	returned  int
-	started   int
-	rotated   map[string]string // rotated file name -> content hash when first seen
-	lastFault int64
-	invMsg    string
-	names     []string
-	files     [][]byte
-	readErr   string
+	dir           string
+	logdir        string
+	sent          map[string]int64 // serial key -> simulated ms of the Send call
+	sentStep      map[string]int   // serial key -> scheduler step of the Send call
+	lastFaultStep int              // step of the last external filesystem action
+	returned      int
+	started       int
+	rotated       map[string]string // rotated file name -> content hash when first seen
+	lastFault     int64
+	invMsg        string
+	names         []string
+	files         [][]byte
+	readErr       string
 }
 
 func (st *c07State) checkRotated() string {
@@ -203,7 +223,7 @@ func runC07(t *testing.T, sc *Scenario) Result {
 	res := okResult()
 	stubHub.reset()
 	maxsize := sc.ParamInt("maxsize", 1024)
-	st := &c07State{sent: map[string]int64{}, rotated: map[string]string{}}
+	st := &c07State{sent: map[string]int64{}, sentStep: map[string]int{}, rotated: map[string]string{}}
 	fsFaulted := false
 	obs := RunScenario(t, sc, func(w *World) {
 		w.PreBoot = func(dir string) {
@@ -248,6 +268,7 @@ func runC07(t *testing.T, sc *Scenario) Result {
 				key := fmt.Sprintf("%s:%d", w.Sc.Actors[ai].Name, e.Serial)
 				ev := event.New(event.Category("c07"), event.Custom("serial", key), event.Custom("pad", strings.Repeat("p", e.Pad)))
 				st.sent[key] = w.nowMs()
+				st.sentStep[key] = w.step
 				q, ok := queues[ai]
 				if !ok {
 					q = make(chan event.Event, 2048)
@@ -266,12 +287,14 @@ func runC07(t *testing.T, sc *Scenario) Result {
 					res.fault("active-file-removed", 1)
 				}
 				st.lastFault = w.nowMs()
+				st.lastFaultStep = w.step
 				fsFaulted = true
 			case "fsrename":
 				if os.Rename(active, filepath.Join(st.dir, fmt.Sprintf("moved-%d", w.nowMs()))) == nil {
 					res.fault("active-file-renamed", 1)
 				}
 				st.lastFault = w.nowMs()
+				st.lastFaultStep = w.step
 				fsFaulted = true
 			case "fsrmdir":
 				// the whole log directory goes away (rotated files are moved aside, not judged afterwards)
@@ -280,10 +303,12 @@ func runC07(t *testing.T, sc *Scenario) Result {
 				}
 				st.rotated = map[string]string{}
 				st.lastFault = w.nowMs()
+				st.lastFaultStep = w.step
 				fsFaulted = true
 			case "fsmkdir":
 				os.MkdirAll(st.logdir, 0755)
 				st.lastFault = w.nowMs()
+				st.lastFaultStep = w.step
 			default:
 				panic("c07: unknown op " + op.K)
 			}
@@ -387,8 +412,11 @@ func runC07(t *testing.T, sc *Scenario) Result {
 			return res
 		}
 		if c == 0 {
-			if fsFaulted && st.sent[k] <= st.lastFault+2000 {
-				continue // may have been flushed into a file that was removed/renamed externally
+			if fsFaulted && st.sentStep[k] <= st.lastFaultStep {
+				// sent before the file (or its directory) was taken away for the last time: it may have been flushed
+				// into what was removed.  Everything sent in a later step goes through a write that notices the
+				// missing path and reopens, and must be logged.
+				continue
 			}
 			kind := "event-lost"
 			if fsFaulted {
